@@ -119,6 +119,29 @@ def hsStep (ts : List String) : Option String :=
     | some k, some p, some a, some b => let (o, np) := maskBytesGo k p a b; some (toHex o ++ " " ++ toString np)
     | _, _, _, _ => none
   | "nego" :: _ => some "ok"
+  | "mx" :: _ =>
+    let pk : Client.ProxyKind := match kv ts "proxy" with | some "http" => .http | some "https" => .https | some "socks5" => .socks5 | _ => .none
+    let cr : Client.Cred := match kv ts "cred" with | some "user" => .user | some "userpass" => .userpass | some "userempty" => .userempty | _ => .none
+    let ce : Client.CertCase := match kv ts "cert" with | some "other" => .other | some "untrusted" => .untrusted | _ => .ok
+    let c : Client.MCfg := { proxy := pk, wss := kvBool ts "wss", nd := kvBool ts "nd", ndc := kvBool ts "ndc", ndtls := kvBool ts "ndtls",
+                              cred := cr, cert := ce, skipVerify := kvBool ts "skip" }
+    let p := Client.dialPlan c
+    let backend := if c.wss then "backend.test:443" else "backend.test:80"
+    let proxyAddr := match pk with | .http => "proxy.test:8080" | .https => "proxy.test:8443" | .socks5 => "proxy.test:1080" | .none => ""
+    let fn := match p.firstFn with | .nd => "ND" | .ndc => "NDC" | .ndtls => "NDTLS" | .default => "DEFAULT"
+    let first := fn ++ "@" ++ (if p.firstHopIsProxy then proxyAddr else backend)
+    let b64 (s : String) : String := String.ofList ((Spec.base64 (strBytes s)).map (fun b => Char.ofNat b.toNat))
+    let auth := match cr with | .userpass => "Basic@" ++ b64 "alice:s3cret" | .userempty => "Basic@" ++ b64 "alice:" | _ => ""
+    let connect := if p.connect then s!"CONNECT@{backend}@auth={auth}" else "-"
+    let socks := if p.socks then
+        (match cr with
+         | .userpass => s!"{backend}@user=alice@pass=s3cret@auth=true"
+         | .user => s!"{backend}@user=alice@pass=@auth=true"
+         | .userempty => s!"{backend}@user=alice@pass=@auth=true"
+         | .none => s!"{backend}@user=@pass=@auth=false")
+      else "-"
+    let sni := if c.wss then "backend.test" else "-"
+    some s!"ok={if p.succeeds then 1 else 0} dials=1 first={first} connect={connect} socks={socks} sni={sni} upgrades={if p.succeeds then 1 else 0}"
   | "plan" :: _ =>
     let cfg : Plan.Cfg := { server := kvBool ts "server", timeout := kvBool ts "timeout", proxy := kvBool ts "proxy" }
     let o := Plan.exec (Plan.plan cfg) (kvNat ts "fail")
